@@ -448,6 +448,47 @@ mod imp2 {
                 if let Some(g) = g { go!(g) } else if let Some(ro) = ro { go!(ro) } else { go!(HalfGauss) }
                 json!({"steps": outs})
             }
+            "nuts_set_seed_max" => {
+                use mini_mcmc::nuts::NUTS;
+                let g = DiffableGaussian2D::<f64>::new([0.0, 0.0], [[1.0, 0.0], [0.0, 1.0]]);
+                let s = NUTS::<f64, B64, _>::new(g, vec![vec![0.0, 0.0]; 3], 0.8).set_seed(u64::MAX - 1);
+                let ch = s.verif_chains();
+                let distinct = ch[0].verif_rng() != ch[1].verif_rng() && ch[1].verif_rng() != ch[2].verif_rng() && ch[0].verif_rng() != ch[2].verif_rng();
+                json!({"distinct": distinct})
+            }
+            "progress_precision" => {
+                // run_progress on every element type x backend precision; a panic is caught and reported
+                let sampler = case["sampler"].as_str().unwrap_or("NUTS").to_string();
+                let t = case["T"].as_str().unwrap_or("f32").to_string();
+                let be = case["backend"].as_str().unwrap_or("f32").to_string();
+                let r = std::panic::catch_unwind(move || -> bool {
+                    use mini_mcmc::nuts::NUTS;
+                    macro_rules! nuts { ($T:ty, $B:ty) => {{
+                        let g = DiffableGaussian2D::<$T>::new([0.0, 0.0], [[1.0, 0.0], [0.0, 1.0]]);
+                        let mut s = NUTS::<$T, $B, _>::new(g, vec![vec![0.1 as $T, 0.2], vec![-0.3, 0.4]], 0.8).set_seed(5);
+                        s.run_progress(6, 2).is_ok()
+                    }}; }
+                    macro_rules! hmc { ($T:ty, $B:ty) => {{
+                        let g = DiffableGaussian2D::<$T>::new([0.0, 0.0], [[1.0, 0.0], [0.0, 1.0]]);
+                        let mut s = HMC::<$T, $B, _>::new(g, vec![vec![0.1 as $T, 0.2], vec![-0.3, 0.4]], 0.1, 2).set_seed(5);
+                        s.run_progress(6, 2).is_ok()
+                    }}; }
+                    match (sampler.as_str(), t.as_str(), be.as_str()) {
+                        ("NUTS", "f32", "f32") => nuts!(f32, B32),
+                        ("NUTS", "f64", "f64") => nuts!(f64, B64),
+                        ("NUTS", "f32", "f64") => nuts!(f32, B64),
+                        ("NUTS", "f64", "f32") => nuts!(f64, B32),
+                        ("HMC", "f32", "f32") => hmc!(f32, B32),
+                        ("HMC", "f64", "f64") => hmc!(f64, B64),
+                        ("HMC", "f32", "f64") => hmc!(f32, B64),
+                        (_, _, _) => hmc!(f64, B32),
+                    }
+                });
+                match r {
+                    Ok(ok) => json!({"panicked": false, "ok": ok}),
+                    Err(_) => json!({"panicked": true}),
+                }
+            }
             _ => json!({"error": format!("unknown case {}", case["case"])}),
         }
     }
